@@ -378,10 +378,14 @@ func (p *Policy) sanitize(r io.Reader, w io.Writer) error {
 			switch normaliseElementName(token.Data) {
 			case `script`:
 				if !p.allowUnsafe {
+					// the tokenizer treats what follows <script/> as the raw
+					// text of the element: it is dropped with the tag
+					mostRecentlyStartedToken = `script`
 					continue
 				}
 			case `style`:
 				if !p.allowUnsafe {
+					mostRecentlyStartedToken = `style`
 					continue
 				}
 			}
